@@ -4,7 +4,7 @@
    and element count; not-found exactly when the element is absent. *)
 From Coq Require Import ZArith List Bool Lia.
 From DG Require Import CaseFormat ProtoWireRef ProtoWireRefProofs ProtoMsg ProtoMsgProofs
-  ProtoGeneric ProtoGenericAlg ProtoGenericProofs.
+  ProtoGeneric ProtoGenericAlg ProtoGenericDom ProtoGenericProofs.
 Import ListNotations.
 Local Open Scope Z_scope.
 
@@ -667,4 +667,333 @@ Proof.
   { unfold buf. rewrite !app_length. pose proof (wenc_length_ge (map (pair num) vals)). rewrite map_length in H. lia. }
   replace (Datatypes.S (length buf)) with (length vals + Datatypes.S (length buf - length vals))%nat by lia.
   unfold buf. rewrite sau_run by assumption. f_equal; try lia. apply slice_app.
+Qed.
+
+(* ------------------------------------------------------------------ typed level: what well-formed values emit *)
+Definition refines (r : lres) (g : gout) : Prop :=
+  match expected_gout r with Some l => In g l | None => True end.
+
+Lemma kind_small_numeric k : is_numeric k = true -> scalar_tt k.
+Proof. intros H. apply is_numeric_cases in H. cbn [In] in H. unfold scalar_tt, T_LIST, T_MAP. intuition lia. Qed.
+
+Lemma wf_singular_facts S t v : wf_fld S LSingular t v = true ->
+  wf_wval (sval v) = true /\ wt_of_wval (sval v) = elem_wt t /\ scalar_tt (kind_of_type t) /\
+  encode_elem v = wenc_val (sval v).
+Proof.
+  intros H. pose proof (sval_wf _ _ _ H) as Hw. split; [exact Hw|].
+  assert (Ee : encode_elem v = wenc_val (sval v)) by (unfold encode_elem; rewrite (wfld_single _ _ _ 1 H); reflexivity).
+  destruct v as [k x|k b|fs| |]; cbn [wf_fld] in H; try discriminate.
+  - destruct t as [k'|]; [|discriminate].
+    apply andb_true_iff in H as [H Hok]. apply andb_true_iff in H as [Hk Hn]. apply Z.eqb_eq in Hk. subst k'.
+    destruct (scalar_rt k x Hn Hok) as [_ [_ Hwt]]. cbn [sval kind_of_type]. unfold elem_wt. cbn [kind_of_type].
+    split; [exact Hwt|]. split; [apply kind_small_numeric; exact Hn|exact Ee].
+  - destruct t as [k'|]; [|discriminate].
+    apply andb_true_iff in H as [H _]. apply andb_true_iff in H as [Hk Hb]. apply Z.eqb_eq in Hk. subst k'.
+    unfold is_byteskind in Hb. unfold elem_wt. cbn [sval kind_of_type wt_of_wval].
+    apply orb_true_iff in Hb. destruct Hb as [E|E]; apply Z.eqb_eq in E; subst k;
+      (split; [reflexivity|]; split; [unfold scalar_tt, T_LIST, T_MAP; lia|exact Ee]).
+  - destruct t as [|name]; [discriminate|]. unfold elem_wt. cbn [sval kind_of_type wt_of_wval].
+    split; [reflexivity|]. split; [unfold scalar_tt, T_LIST, T_MAP, K_MESSAGE; lia|exact Ee].
+Qed.
+
+(* a well-formed list value *)
+Lemma wf_list_facts S p t q vs num : wf_fld S (LRepeated p) t (VList q vs) = true ->
+  q = p && type_numeric t /\ vs <> [] /\ Forall (fun x => wf_fld S LSingular t x = true) vs /\
+  (if q then exists k xs, t = TScalar k /\ is_numeric k = true /\ vs = map (VScalar k) xs /\
+                          Forall (fun x => scalar_okb k x = true) xs /\
+                          wfld num (VList q vs) = [(num, WBytes (penc k xs))] /\ plen (penc k xs) < 2 ^ 64
+   else wfld num (VList q vs) = map (pair num) (map sval vs)).
+Proof.
+  intros H. cbn [wf_fld] in H.
+  apply andb_true_iff in H as [H Hall]. apply andb_true_iff in H as [H Hlen]. apply andb_true_iff in H as [Hq Hne].
+  apply eqb_prop in Hq. split; [exact Hq|]. split; [destruct vs; [discriminate|discriminate]|].
+  split; [apply forallb_Forall; exact Hall|].
+  destruct q.
+  - symmetry in Hq. apply andb_true_iff in Hq as [_ Hnum]. destruct t as [k|]; [|discriminate]. cbn [type_numeric] in Hnum.
+    destruct (packed_elems_scalars _ _ _ Hall Hnum) as [xs [E Hxs]]. exists k, xs.
+    split; [reflexivity|]. split; [exact Hnum|]. split; [exact E|]. split; [exact Hxs|].
+    assert (Ep : flat_map packed_elem vs = penc k xs).
+    { subst vs. clear. unfold penc. induction xs as [|x xs IHx]; [reflexivity|]. cbn [map flat_map packed_elem]. rewrite IHx. reflexivity. }
+    cbn [wfld]. rewrite Ep. split; [reflexivity|]. cbn [negb orb] in Hlen. rewrite Ep in Hlen. apply Z.ltb_lt. exact Hlen.
+  - cbn [wfld]. rewrite map_map. apply flat_map_singletons.
+    apply forallb_Forall in Hall. eapply Forall_impl; [|exact Hall]. intros x Hx. cbn beta in Hx. apply (wfld_single _ _ _ num Hx).
+Qed.
+
+(* a well-formed map value *)
+Definition entry_of (kx : mkey * pval) : mkey * wval := (fst kx, sval (snd kx)).
+Lemma wf_map_facts S kk t kvs num : wf_fld S (LMap kk) t (VMap kvs) = true ->
+  kvs <> [] /\ wfld num (VMap kvs) = map (erec num) (map entry_of kvs) /\
+  Forall (fun kx => key_okb kk (fst kx) = true /\ wf_fld S LSingular t (snd kx) = true /\ wf_entry (entry_of kx) = true) kvs.
+Proof.
+  intros H. cbn [wf_fld] in H. apply andb_true_iff in H as [H Hall]. apply andb_true_iff in H as [Hne _].
+  split; [destruct kvs; discriminate|].
+  apply forallb_Forall in Hall.
+  assert (Hper : Forall (fun kx => key_okb kk (fst kx) = true /\ wf_fld S LSingular t (snd kx) = true /\
+                                   plen (wenc [key_field (fst kx); (2, sval (snd kx))]) < 2 ^ 64) kvs).
+  { eapply Forall_impl; [|exact Hall]. intros [k x] Hx. cbn [fst snd] in *.
+    apply andb_true_iff in Hx as [Hx Hl]. apply andb_true_iff in Hx as [Hk Hv].
+    rewrite (wfld_single _ _ _ 2 Hv) in Hl. apply Z.ltb_lt in Hl. auto. }
+  split.
+  - cbn [wfld]. rewrite map_map. apply map_ext_in. intros [k x] Hin. rewrite Forall_forall in Hper.
+    destruct (Hper _ Hin) as [_ [Hv _]]. cbn [fst snd] in *. rewrite (wfld_single _ _ _ 2 Hv).
+    unfold erec, entry_of. cbn [fst snd]. rewrite ebody_wenc. reflexivity.
+  - eapply Forall_impl; [|exact Hper]. intros [k x] [Hk [Hv Hl]]. cbn [fst snd] in *.
+    split; [exact Hk|]. split; [exact Hv|].
+    unfold wf_entry, entry_of, kval. cbn [fst snd]. rewrite (key_field_wf _ _ Hk), (sval_wf _ _ _ Hv). cbn [andb].
+    rewrite <- ebody_wenc. apply Z.ltb_lt. exact Hl.
+Qed.
+
+(* ------------------------------------------------------------------ messages and schemas *)
+Lemma assoc_z_split {B} n (fs : list (Z * B)) v : assoc_z n fs = Some v ->
+  exists fs1 fs2, fs = fs1 ++ (n, v) :: fs2 /\ Forall (fun nv => fst nv <> n) fs1.
+Proof.
+  induction fs as [|[m x] fs IH]; intros H; [discriminate|]. cbn [assoc_z] in H.
+  destruct (Z.eqb_spec m n) as [->|Hne].
+  - inversion H; subst. exists [], fs. split; [reflexivity|constructor].
+  - destruct (IH H) as [fs1 [fs2 [E Hall]]]. exists ((m, x) :: fs1), fs2. split; [rewrite E; reflexivity|].
+    constructor; [exact Hne|exact Hall].
+Qed.
+
+Lemma assoc_z_none {B} n (fs : list (Z * B)) : assoc_z n fs = None -> Forall (fun nv => fst nv <> n) fs.
+Proof.
+  induction fs as [|[m x] fs IH]; intros H; [constructor|]. cbn [assoc_z] in H.
+  destruct (Z.eqb_spec m n) as [->|Hne]; [discriminate|]. constructor; [exact Hne|apply IH; exact H].
+Qed.
+
+Lemma nodupb_app_tail {B} (fs1 : list (Z * B)) n v fs2 :
+  nodupb Z.eqb (map fst (fs1 ++ (n, v) :: fs2)) = true -> Forall (fun nv => fst nv <> n) fs2.
+Proof.
+  induction fs1 as [|a fs1 IH]; cbn [app map nodupb]; intros H.
+  - apply andb_true_iff in H as [Hx _]. apply negb_true_iff in Hx. cbn [fst] in Hx.
+    apply Forall_forall. intros [m x] Hin E. cbn [fst] in E. subst m.
+    assert (existsb (Z.eqb n) (map fst fs2) = true).
+    { apply existsb_exists. exists n. split; [apply (in_map fst _ _ Hin)|apply Z.eqb_refl]. }
+    congruence.
+  - apply andb_true_iff in H as [_ H]. apply IH. exact H.
+Qed.
+
+Lemma msg_wire_app a b : msg_wire (a ++ b) = msg_wire a ++ msg_wire b.
+Proof. unfold msg_wire. apply flat_map_app. Qed.
+
+(* what wf says about the fields of a message *)
+Definition fields_wf (S : schema) (md : mdesc) (fs : pmsg) : Prop :=
+  Forall (fun nv => exists fd, find_field md (fst nv) = Some fd /\ 1 <= fst nv <= MAX_FIELD_NUMBER /\
+                               wf_fld S (fd_label fd) (fd_type fd) (snd nv) = true) fs.
+
+Lemma wf_msg_facts S name fs : wf_fld S LSingular (TMsg name) (VMsg fs) = true ->
+  exists md, find_msg S name = Some md /\ nodupb Z.eqb (map fst fs) = true /\
+             plen (encode_msg fs) < 2 ^ 64 /\ fields_wf S md fs.
+Proof.
+  cbn [wf_fld]. intros H. destruct (find_msg S name) as [md|]; [|discriminate]. exists md.
+  apply andb_true_iff in H as [H Hall]. apply andb_true_iff in H as [Hnd Hlen].
+  split; [reflexivity|]. split; [exact Hnd|]. split; [apply Z.ltb_lt; exact Hlen|].
+  apply forallb_Forall in Hall. eapply Forall_impl; [|exact Hall]. intros nv Hx. cbn beta in Hx.
+  destruct (find_field md (fst nv)) as [fd|]; [|discriminate]. exists fd.
+  apply andb_true_iff in Hx as [Hx Hv]. apply andb_true_iff in Hx as [H1 H2]. apply Z.leb_le in H1. apply Z.leb_le in H2.
+  split; [reflexivity|]. split; [lia|exact Hv].
+Qed.
+
+Lemma fields_wf_wire S md fs : fields_wf S md fs ->
+  wf_wire (msg_wire fs) = true /\
+  (forall n, Forall (fun nv => fst nv <> n) fs -> Forall (fun f => fst f <> n) (msg_wire fs)).
+Proof.
+  intros H. induction H as [|[m x] fs [fd [Hf [Hm Hv]]] _ [IH1 IH2]].
+  - split; [reflexivity|]. intros. constructor.
+  - cbn [fst snd] in *. destruct (wfld_fvals _ _ _ _ m Hv) as [E _].
+    unfold msg_wire in *. cbn [flat_map fst snd]. split.
+    + unfold wf_wire in *. rewrite forallb_app, IH1, andb_true_r. rewrite E.
+      apply (map_pair_wf m _ Hm (fvals_wf _ _ _ _ Hv)).
+    + intros n Hn. inversion Hn as [|? ? Hn1 Hn2]; subst. cbn [fst] in Hn1. apply Forall_app. split; [|apply IH2; exact Hn2].
+      rewrite E. apply Forall_forall. intros f Hin. apply in_map_iff in Hin. destruct Hin as [w [<- _]]. exact Hn1.
+Qed.
+
+Lemma fields_wf_app S md a b : fields_wf S md (a ++ b) -> fields_wf S md a /\ fields_wf S md b.
+Proof. unfold fields_wf. intros H. apply Forall_app in H. exact H. Qed.
+
+(* schemas with distinct field numbers: the descriptor found by name is the one found by its number *)
+Lemma find_field_num md n fd : find_field md n = Some fd -> fd_num fd = n.
+Proof. unfold find_field. intros H. apply find_some in H. destruct H as [_ H]. apply Z.eqb_eq in H. exact H. Qed.
+
+Lemma find_by_num_nodup (l : list fdesc) fd : nodupb Z.eqb (map fd_num l) = true -> In fd l ->
+  find (fun f => fd_num f =? fd_num fd) l = Some fd.
+Proof.
+  induction l as [|a l IH]; intros Hnd Hin; [destruct Hin|].
+  cbn [map nodupb] in Hnd. apply andb_true_iff in Hnd as [Hx Hnd]. cbn [find].
+  destruct Hin as [->|Hin]; [rewrite Z.eqb_refl; reflexivity|].
+  destruct (Z.eqb_spec (fd_num a) (fd_num fd)) as [E|_]; [|apply IH; assumption].
+  exfalso. apply negb_true_iff in Hx.
+  assert (existsb (Z.eqb (fd_num a)) (map fd_num l) = true).
+  { apply existsb_exists. exists (fd_num fd). split; [apply in_map; exact Hin|apply Z.eqb_eq; exact E]. }
+  congruence.
+Qed.
+
+Lemma schema_md S name md : schema_okb S = true -> find_msg S name = Some md -> mdesc_okb md = true.
+Proof.
+  unfold schema_okb, find_msg. intros H Hf. apply find_some in Hf. destruct Hf as [Hin _].
+  rewrite forallb_forall in H. apply H. exact Hin.
+Qed.
+
+Lemma step_field_facts md s fd : mdesc_okb md = true -> step_field md s = Some fd ->
+  find_field md (fd_num fd) = Some fd /\ field_okb fd = true.
+Proof.
+  unfold mdesc_okb. intros H Hs. apply andb_true_iff in H as [Hnd Hok].
+  assert (Hin : In fd (md_fields md)).
+  { destruct s; cbn [step_field] in Hs; try discriminate.
+    - unfold find_field in Hs. apply find_some in Hs. tauto.
+    - unfold find_field_name in Hs. apply find_some in Hs. tauto. }
+  split; [apply find_by_num_nodup; assumption|]. rewrite forallb_forall in Hok. apply Hok. exact Hin.
+Qed.
+
+(* ------------------------------------------------------------------ what the key scan finds *)
+Lemma sk_expect_spec matchb fnum r : forall e pre w2 buf,
+  buf = pre ++ evalb e ++ wenc (map (erec fnum) r) ++ wenc w2 ->
+  match find (fun a => matchb (fst a)) (e :: r) with
+  | Some a => exists preK restK, sk_expect matchb fnum (plen pre) (e :: r) = SFound (plen preK) (plen preK) /\
+                                 buf = preK ++ wenc_field (2, snd a) ++ restK
+  | None => sk_expect matchb fnum (plen pre) (e :: r) = SNotFound
+  end.
+Proof.
+  induction r as [|e' r IH]; intros e pre w2 buf Eb; cbn [find sk_expect]; destruct (matchb (fst e)) eqn:Em.
+  - exists (pre ++ varint_enc (plen (ebody e)) ++ tagb 1 (wt_of_wval (kval (fst e))) ++ wenc_val (kval (fst e))),
+           (wenc (map (erec fnum) []) ++ wenc w2).
+    split; [cbv zeta; rewrite !plen_app; f_equal; lia|].
+    rewrite Eb. unfold evalb, ebody. rewrite wenc_field_tagb. cbn [fst snd]. repeat rewrite <- app_assoc. reflexivity.
+  - reflexivity.
+  - exists (pre ++ varint_enc (plen (ebody e)) ++ tagb 1 (wt_of_wval (kval (fst e))) ++ wenc_val (kval (fst e))),
+           (wenc (map (erec fnum) (e' :: r)) ++ wenc w2).
+    split; [cbv zeta; rewrite !plen_app; f_equal; lia|].
+    rewrite Eb. unfold evalb, ebody. rewrite wenc_field_tagb. cbn [fst snd]. repeat rewrite <- app_assoc. reflexivity.
+  - replace (plen pre + plen (evalb e) + plen (tagb fnum 2)) with (plen (pre ++ evalb e ++ tagb fnum 2)) by (rewrite !plen_app; lia).
+    apply (IH e' (pre ++ evalb e ++ tagb fnum 2) w2 buf).
+    rewrite Eb. cbn [map]. rewrite wenc_cons, erec_enc. repeat rewrite <- app_assoc. reflexivity.
+Qed.
+
+(* the readers of getByPath satisfy rdkey_ok *)
+Definition match_str (k : list Z) (key : mkey) : bool := match key with KStr b => bytes_eqb b k | KInt _ _ => false end.
+Definition match_int (i : Z) (key : mkey) : bool := match key with KInt _ v => to_s 64 v =? i | KStr _ => false end.
+
+Lemma rdkey_str_ok buf k keys : Forall (fun key => key_okb 9 key = true) keys ->
+  rdkey_ok buf (fun r => match aread_string buf r with Some (b, r') => Some (bytes_eqb b k, r') | None => None end)
+           (match_str k) keys.
+Proof.
+  intros Hall pre key rest Hin Eb. rewrite Forall_forall in Hall. specialize (Hall _ Hin).
+  destruct key as [k' v|bs]; cbn [key_okb] in Hall.
+  - apply andb_true_iff in Hall as [Hall _]. apply andb_true_iff in Hall as [E Hn]. apply Z.eqb_eq in E. subst k'. cbn in Hn. discriminate.
+  - apply andb_true_iff in Hall as [_ Hl]. apply Z.ltb_lt in Hl. unfold kval in *. cbn [key_field snd] in *.
+    rewrite Eb. rewrite aread_string_enc by exact Hl. reflexivity.
+Qed.
+
+Lemma rdkey_int_ok buf kk i keys : kind_is_int kk = true -> Forall (fun key => key_okb kk key = true) keys ->
+  rdkey_ok buf (fun r => match aread_int buf r kk with Some (x, r') => Some (x =? i, r') | None => None end)
+           (match_int i) keys.
+Proof.
+  intros Hk Hall pre key rest Hin Eb. rewrite Forall_forall in Hall. specialize (Hall _ Hin).
+  destruct key as [k' v|bs]; cbn [key_okb] in Hall.
+  - apply andb_true_iff in Hall as [Hall Hok]. apply andb_true_iff in Hall as [E _]. apply Z.eqb_eq in E. subst k'.
+    unfold kval in *. cbn [key_field snd] in *. rewrite Eb. rewrite aread_int_enc by assumption. reflexivity.
+  - apply andb_true_iff in Hall as [E _]. apply Z.eqb_eq in E. subst kk. cbn in Hk. discriminate.
+Qed.
+
+(* ------------------------------------------------------------------ entering a message *)
+(* outcome of the prefix computation of a field step: message length, cursor, narrowed buffer *)
+Definition msg_entry (isroot : bool) (buf : list Z) (rd : Z) (pre' payload : list Z) : Prop :=
+  (if isroot then Some (plen buf, rd) else aread_length buf rd) = Some (plen payload, plen pre') /\
+  (if f704 all_fixes && (0 <=? plen pre' + plen payload) && (plen pre' + plen payload <? plen buf)
+   then firstn (Z.to_nat (plen pre' + plen payload)) buf else buf) = pre' ++ payload.
+
+Lemma msg_entry_root payload : msg_entry true payload 0 [] payload.
+Proof.
+  split; [reflexivity|]. change (plen (@nil Z)) with 0. rewrite Z.add_0_l, Z.ltb_irrefl, andb_false_r. reflexivity.
+Qed.
+
+Lemma msg_entry_nested preX payload restX :
+  plen (preX ++ (varint_enc (plen payload) ++ payload) ++ restX) < 9223372036854775808 ->
+  msg_entry false (preX ++ (varint_enc (plen payload) ++ payload) ++ restX) (plen preX)
+            (preX ++ varint_enc (plen payload)) payload.
+Proof.
+  intros Hlen. pose proof (plen_nonneg payload) as Hp. pose proof (plen_nonneg preX). pose proof (plen_nonneg restX).
+  pose proof (plen_nonneg (varint_enc (plen payload))).
+  rewrite !plen_app in Hlen. split.
+  - unfold aread_length. rewrite <- app_assoc. rewrite cvar_enc by (change (2 ^ 64) with 18446744073709551616; lia).
+    rewrite to_s64_small by lia. rewrite plen_app. reflexivity.
+  - change (f704 all_fixes) with true. cbn [andb].
+    set (pre' := preX ++ varint_enc (plen payload)).
+    assert (Eb : preX ++ (varint_enc (plen payload) ++ payload) ++ restX = (pre' ++ payload) ++ restX)
+      by (unfold pre'; repeat rewrite <- app_assoc; reflexivity).
+    rewrite Eb. pose proof (plen_nonneg pre').
+    destruct (Z.leb_spec 0 (plen pre' + plen payload)); [|lia]. cbn [andb].
+    rewrite <- plen_app.
+    destruct (Z.ltb_spec (plen (pre' ++ payload)) (plen ((pre' ++ payload) ++ restX))) as [Hlt|Hge].
+    + unfold plen. rewrite Nat2Z.id. apply firstn_app_len.
+    + rewrite plen_app in Hge. assert (plen restX = 0) by lia.
+      destruct restX; [rewrite app_nil_r; reflexivity|rewrite plen_cons in *; pose proof (plen_nonneg restX); lia].
+Qed.
+
+Lemma plen_firstn_le {A} n (l : list A) : plen (firstn n l) <= plen l.
+Proof. unfold plen. rewrite firstn_length. lia. Qed.
+
+Lemma msg_entry_plen isroot buf rd pre' payload : msg_entry isroot buf rd pre' payload -> plen (pre' ++ payload) <= plen buf.
+Proof.
+  intros [_ H]. rewrite <- H. destruct (f704 all_fixes && (0 <=? plen pre' + plen payload) && (plen pre' + plen payload <? plen buf)).
+  - apply plen_firstn_le.
+  - lia.
+Qed.
+
+(* ------------------------------------------------------------------ the search over the fields of a message *)
+Lemma msg_search_none S md fs pre' id :
+  fields_wf S md fs -> assoc_z id fs = None ->
+  search_field_id (Datatypes.S (length (pre' ++ encode_msg fs))) (pre' ++ encode_msg fs) (plen pre') id
+                  (plen pre' + plen (encode_msg fs)) = SNotFound.
+Proof.
+  intros Hf Hn. destruct (fields_wf_wire _ _ _ Hf) as [Hw Hne]. specialize (Hne id (assoc_z_none _ _ Hn)).
+  unfold encode_msg. set (w := msg_wire fs) in *.
+  assert (Hl : (length w <= length (pre' ++ wenc w))%nat) by (rewrite app_length; pose proof (wenc_length_ge w); lia).
+  replace (Datatypes.S (length (pre' ++ wenc w))) with (length w + Datatypes.S (length (pre' ++ wenc w) - length w))%nat by lia.
+  rewrite <- (app_nil_r (wenc w)) at 2. rewrite sfi_skip by (try assumption; lia). apply sfi_end.
+Qed.
+
+Lemma msg_search_found S md fs pre' id v :
+  fields_wf S md fs -> nodupb Z.eqb (map fst fs) = true -> assoc_z id fs = Some v ->
+  exists W1 W2 fd, find_field md id = Some fd /\ 1 <= id <= MAX_FIELD_NUMBER /\
+    wf_fld S (fd_label fd) (fd_type fd) v = true /\
+    pre' ++ encode_msg fs = (pre' ++ wenc W1) ++ wenc (wfld id v) ++ wenc W2 /\ inert id W2 /\
+    search_field_id (Datatypes.S (length (pre' ++ encode_msg fs))) (pre' ++ encode_msg fs) (plen pre') id
+                    (plen pre' + plen (encode_msg fs)) = SFound (plen (pre' ++ wenc W1)) (plen (pre' ++ wenc W1)).
+Proof.
+  intros Hf Hnd Ha. destruct (assoc_z_split _ _ _ Ha) as [fs1 [fs2 [E Hne1]]]. subst fs.
+  pose proof (nodupb_app_tail _ _ _ _ Hnd) as Hne2.
+  destruct (fields_wf_app _ _ _ _ Hf) as [Hf1 Hf2'].
+  assert (Hfv : fields_wf S md [(id, v)]) by (unfold fields_wf in *; inversion Hf2'; constructor; [assumption|constructor]).
+  assert (Hf2 : fields_wf S md fs2) by (unfold fields_wf in *; inversion Hf2'; assumption).
+  inversion Hfv as [|? ? [fd [Hfd [Hid Hv]]] _]; subst. cbn [fst snd] in *.
+  destruct (fields_wf_wire _ _ _ Hf1) as [Hw1 Hn1]. destruct (fields_wf_wire _ _ _ Hf2) as [Hw2 Hn2].
+  specialize (Hn1 id Hne1). specialize (Hn2 id Hne2).
+  exists (msg_wire fs1), (msg_wire fs2), fd.
+  split; [exact Hfd|]. split; [exact Hid|]. split; [exact Hv|].
+  assert (Ew : encode_msg (fs1 ++ (id, v) :: fs2) = wenc (msg_wire fs1) ++ wenc (wfld id v) ++ wenc (msg_wire fs2)).
+  { unfold encode_msg. rewrite msg_wire_app, wenc_app. f_equal.
+    change ((id, v) :: fs2) with ([(id, v)] ++ fs2). rewrite msg_wire_app, wenc_app. f_equal.
+    unfold msg_wire. cbn [flat_map fst snd]. rewrite app_nil_r. reflexivity. }
+  split; [rewrite Ew, <- app_assoc; reflexivity|]. split; [split; assumption|].
+  destruct (wfld_fvals _ _ _ _ id Hv) as [Efv Hne]. destruct (fvals v) as [|w0 ws] eqn:Ef; [contradiction|].
+  rewrite Ew. set (W1 := msg_wire fs1) in *. set (tail := wenc (wfld id v) ++ wenc (msg_wire fs2)).
+  assert (Hl : (length W1 < length (pre' ++ wenc W1 ++ tail))%nat).
+  { rewrite !app_length. pose proof (wenc_length_ge W1). unfold tail. rewrite Efv. cbn [map]. rewrite wenc_cons, !app_length.
+    destruct (wenc_field_cons (id, w0)) as [b [t E]]. rewrite E. cbn [length]. lia. }
+  replace (Datatypes.S (length (pre' ++ wenc W1 ++ tail))) with (length W1 + Datatypes.S (length (pre' ++ wenc W1 ++ tail) - length W1))%nat by lia.
+  assert (Htl : 1 <= plen tail).
+  { unfold tail. rewrite Efv. cbn [map]. rewrite wenc_cons, !plen_app. pose proof (wenc_field_plen_pos (id, w0)).
+    pose proof (plen_nonneg (wenc (map (pair id) ws))). pose proof (plen_nonneg (wenc (msg_wire fs2))). lia. }
+  rewrite sfi_skip; [|exact Hw1|exact Hn1|rewrite plen_app; lia].
+  rewrite app_assoc, <- plen_app. unfold tail. rewrite Efv. cbn [map]. rewrite wenc_cons, <- !app_assoc.
+  assert (Hfw : wf_wfield (id, w0) = true).
+  { pose proof (fvals_wf _ _ _ _ Hv) as Hfw. rewrite Ef in Hfw. cbn [forallb] in Hfw. apply andb_true_iff in Hfw as [Hfw _].
+    unfold wf_wfield. cbn [fst snd]. rewrite Hfw. unfold MAX_FIELD_NUMBER in *.
+    destruct (Z.leb_spec 1 id); [|lia]. destruct (Z.leb_spec id 536870911); [|lia]. reflexivity. }
+  rewrite (app_assoc pre').
+  match goal with |- search_field_id (Datatypes.S ?f) _ _ _ ?lim = _ =>
+    pose proof (sfi_found (pre' ++ wenc W1) (id, w0) (wenc (map (pair id) ws) ++ wenc (msg_wire fs2)) f lim Hfw) as Hs end.
+  cbn [fst] in Hs. apply Hs.
+  rewrite !plen_app. pose proof (wenc_field_plen_pos (id, w0)).
+  pose proof (plen_nonneg (wenc (map (pair id) ws))). pose proof (plen_nonneg (wenc (msg_wire fs2))). lia.
 Qed.
